@@ -486,6 +486,9 @@ func FromJSONWithTypes(data []byte) (Item, error) {
 		if !ok {
 			return nil, mkErrValue(errors.New("not an integer"))
 		}
+		if err := CheckIntegerSize(val); err != nil {
+			return nil, mkErrValue(err)
+		}
 		return NewBigInteger(val), nil
 	case ByteArrayT, BufferT:
 		var s string
